@@ -8,7 +8,8 @@
    entity.create_artifact (105-127), Entity.artifact2destination (1574-1601).
    zlib, SHA-1 and the XML parser of the SOAP receiver are Section variables.
    Definitions named ..._v0 restate the code as it was BEFORE a repair commit (fc5e66e9: query
-   glue; 9f16767d: declaration text inside the SOAP body); they are kept for the ..._v0_refuted
+   glue; d9426b2c: add_query and a query ending in '?' (these are the ..._v1 definitions); 9f16767d:
+   declaration text inside the SOAP body); they are kept for the ..._v0_refuted
    theorems and for Corr.cls, which recognises a regression to the old behaviour. *)
 From Coq Require Import String Ascii List Bool Arith DecimalString.
 From Verif Require Import Base.Str Base.Percent Base.Base64 Base.Html Base.Query.
@@ -208,9 +209,16 @@ Section Codec.
 
   (* pack.add_query(location, query):
        base, _hash, fragment = location.partition("#")
-       "?" not in base -> "?" ; base ends with "?" or "&" -> "" ; else "&"
+       _path, _qm, old_query = base.partition("?")
+       not _qm -> "?" ; old_query empty or ending in "&" -> "" ; else "&"
        f"{base}{glue_char}{query}{_hash}{fragment}" *)
   Definition glue_of (base : string) : string :=
+    if negb (has c_qm base) then "?"
+    else let old_query := after c_qm base in
+         if is_empty old_query || last_is c_and old_query then "" else "&".
+
+  (* between fc5e66e9 and d9426b2c: "?" not in base -> "?" ; base ends with "?" or "&" -> "" ; else "&" *)
+  Definition glue_of_v1 (base : string) : string :=
     if negb (has c_qm base) then "?"
     else if last_is c_qm base || last_is c_and base then ""
     else "&".
@@ -222,10 +230,20 @@ Section Codec.
     let base := before c_hash loc in
     base ++ glue_of base ++ q ++ hash_tail loc.
 
+  Definition add_query_v1 (loc q : string) : string :=
+    let base := before c_hash loc in
+    base ++ glue_of_v1 base ++ q ++ hash_tail loc.
+
   (* http_redirect_message(message, location, relay_state, typ, sign=False): the Location header *)
   Definition http_redirect_message (msg loc rs typ : string) : option string :=
     match redirect_args msg rs typ with
     | Some args => Some (add_query loc (urlencode args))
+    | None => None
+    end.
+
+  Definition http_redirect_message_v1 (msg loc rs typ : string) : option string :=
+    match redirect_args msg rs typ with
+    | Some args => Some (add_query_v1 loc (urlencode args))
     | None => None
     end.
 
@@ -250,6 +268,9 @@ Section Codec.
   (* httpbase.use_http_uri(message, "SAMLRequest", destination, relay_state)["url"] *)
   Definition use_http_uri (ident dest rs : string) : string :=
     add_query dest (urlencode (("ID", ident) :: relay_arg rs)).
+
+  Definition use_http_artifact_v1 (art dest rs : string) : string :=
+    add_query_v1 dest (urlencode (("SAMLart", art) :: relay_arg rs)).
 
   (* before fc5e66e9: f"{destination}?{query}" *)
   Definition use_http_artifact_v0 (art dest rs : string) : string :=
